@@ -245,6 +245,16 @@ def run_shard(args):
                 t()
             except _Fail:
                 pass
+            except BaseException as e:  # noqa: BLE001
+                # Hypothesis re-runs a failing example; code under test whose result depends on the call history (a cache, leaked
+                # state) then behaves differently and Hypothesis reports FlakyFailure (an exception group around _Fail).  The
+                # violation itself was recorded by handle() before _Fail was raised: it stands, and is not a harness error.
+                from hypothesis.errors import Flaky
+
+                if isinstance(e, Flaky) and res["failures"]:
+                    res["classes"]["result-depends-on-call-history"] += 1
+                else:
+                    raise
         else:
             for case in sub.cases(shard):
                 try:
